@@ -24,7 +24,7 @@ def expr_corpus(chk, small, wide):
     for mode, wds in (("small", small), ("wide", wide)):
         for wd in wds:
             recs, gen, dist = pv.generate("ExprGen", {"WD": wd, "Mode": f'"{mode}"'}, f"exprs_{mode}_{wd}",
-                                          invariants=("GenWellTyped", "Emit"), workers=4)
+                                          invariants=("GenWellTyped", "Emit"), workers=4, deps=["ExprGen", "Expr", "BV"])
             if gen:
                 chk.add_states(gen, dist)
             out[(mode, wd)] = recs
@@ -98,4 +98,129 @@ def c06(tier, replay=None):
     chk.assumptions += ["BV.tla/Expr.tla are the definition of SMT-LIB semantics (self-tested against integers to width 4-5)",
                         "division/remainder operators are excluded (documented as unimplemented in eval.rs)",
                         "for-all-assignments is exhaustive only up to 10 symbol bits; sampled above"]
+    return chk.finish()
+
+
+# ------------------------------------------------------------------------------------------------
+def simp_inputs(chk, T):
+    corpus = expr_corpus(chk, SMALL_T if T else SMALL_Q + [3], WIDE_T if T else WIDE_Q)
+    recs = []
+    for (mode, wd), rs in corpus.items():
+        if mode == "small":
+            recs += rs if T else pv.subsample(rs, 4000 if wd <= 2 else 3000, pv.seed() + wd)
+        else:
+            recs += rs if T else pv.subsample(rs, 1500, pv.seed() + wd)
+    return recs
+
+
+def c01(tier, replay=None):
+    chk = Check("C01", tier, "model_checking")
+    T = chk.thorough()
+    trace = chk.work / "trace.ndjson"
+    if replay:
+        rep = json.loads(Path(replay).read_text())
+        pv.write_ndjson(chk.work / "in.ndjson", [rep["detail"]["input"]])
+        nrandom = 0
+    else:
+        pv.write_ndjson(chk.work / "in.ndjson", simp_inputs(chk, T))
+        nrandom = 20000 if T else 1500
+    p = pv.pv(["c01", "--in", chk.work / "in.ndjson", "--out", trace, "--random", nrandom])
+    info = json.loads(p.stdout.strip().splitlines()[-1])
+    rejects, st = pv.validate("Trace_C01", pv.SPEC / "Trace.cfg", trace, shards=14)
+    harness_rejects(rejects)
+    chk.add_states(st["generated"], st["distinct"])
+    chk.cov["traces_validated_against_impl"] = st["records"]
+    lines = Path(trace).read_text().splitlines()
+    for rj in rejects:
+        rec = json.loads(lines[rj["l"] - 1])
+        sig = {"why": rj["why"], "loc": rj.get("loc", "")}
+        chk.report(sig, {"input": {"nodes": rec["nodes"], "root": rec["root"]}, "outs": rec["outs"], "tlc": rj})
+    # (M) the transcription of the rule set: sound as designed on every small-width record, drift vs the real code
+    # (the nested-record form has no sharing: only the TLC-generated shapes, not the random DAGs)
+    glines = [x for x in lines if '"id":"g' in x]
+    small = chk.work / "rules.ndjson"
+    small.write_text("\n".join(glines if T else pv.subsample(glines, 4000, pv.seed())) + "\n")
+    rlines = small.read_text().splitlines()
+    model, st2 = pv.validate("Rules_C01", pv.SPEC / "Trace.cfg", small, shards=14, kinds=("model",))
+    chk.add_states(st2["generated"], st2["distinct"])
+    tally = {}
+    for m in model:
+        tally[m["why"]] = tally.get(m["why"], 0) + 1
+    tally["same"] = st2["records"] - sum(tally.values())
+    chk.part("SimplifyRules_transcription", **tally)
+    if tally.get("model-unsound", 0) or tally.get("model-diverges", 0):
+        # the rules *as designed* (transcribed) are unsound on an input: a design-level finding, judged by TLC
+        for m in model:
+            if m["why"] in ("model-unsound", "model-diverges"):
+                rec = json.loads(rlines[m["l"] - 1])
+                chk.report({"why": "design: " + m["why"], "loc": ""}, {"input": {"nodes": rec["nodes"], "root": rec["root"]}, "tlc": m})
+    for i in range(0, len(lines), max(1, len(lines) // 3)):
+        rec = json.loads(lines[i])
+        chk.sample({"id": rec["id"], "nodes": [[n["op"], n["w"], n["a"]] for n in rec["nodes"]], "root": rec["root"], "outs": rec["outs"]})
+    chk.cov["evaluations"] = st["records"]
+    chk.cov["distinct_nontrivial"] = st["records"]
+    chk.cov["rule"] = ("every expression emitted by ExprGen.tla (small widths: all operand kinds incl. all literals; boundary widths: boundary "
+                       "literal shapes, shift amounts >= width and >= 2^32) plus seeded random depth 2-4 DAGs; each simplified through four entry "
+                       "points; TLC judges type, well-typedness and value under all / corner+random assignments, for results and every cache entry")
+    chk.part("harness", **info)
+    chk.assumptions += ["for-all-assignments is exhaustive only up to 10 symbol bits; 64 corner + 12 seeded random assignments above",
+                        "Expr.tla/BV.tla define the meaning (self-tested in C06)"]
+    return chk.finish()
+
+
+def c13(tier, replay=None):
+    chk = Check("C13", tier, "model_checking")
+    T = chk.thorough()
+    # (M) the rewriting driver + cache (do_transform_expr / get_fixed_point / persistent cache) for every rule table
+    cfg = pv.write_cfg(chk.work / "SimplifierCache.cfg", invariants=("Inv",))
+    r = pv.tlc("SimplifierCache", cfg, workers=8, timeout=1800)
+    if not r.ok:
+        raise ToolError("SimplifierCache model: " + r.errtext()[-2000:])
+    chk.add_states(r.generated, r.distinct)
+    chk.part("SimplifierCache_model", states=r.distinct, note="all rule tables over {x,y,f(x),f(y)} x all two-call histories")
+    trace = chk.work / "trace.ndjson"
+    if replay:
+        rep = json.loads(Path(replay).read_text())
+        pv.write_ndjson(chk.work / "in.ndjson", rep["detail"]["batch_inputs"])
+        nrandom = 0
+    else:
+        recs = simp_inputs(chk, T)
+        recs = pv.subsample(recs, 60000 if T else 8000, pv.seed())
+        pv.write_ndjson(chk.work / "in.ndjson", recs)
+        nrandom = 5000 if T else 500
+    p = pv.pv(["c13", "--in", chk.work / "in.ndjson", "--out", trace, "--random", nrandom, "--batch", 4], check=False)
+    if p.returncode not in (0, 3):
+        raise ToolError("c13 harness failed: " + p.stderr[-2000:])
+    tmo = Path(str(trace) + ".timeout")
+    if tmo.exists():
+        with open(trace, "a") as f:
+            f.write(tmo.read_text())
+    rejects, st = pv.validate("Trace_C13", pv.SPEC / "Trace.cfg", trace, shards=12, boundary='"ev":"Batch"')
+    chk.add_states(st["generated"], st["distinct"])
+    chk.cov["traces_validated_against_impl"] = st["records"]
+    lines = None
+    nb = 0
+    for rj in rejects:
+        if lines is None:
+            lines = Path(trace).read_text().splitlines()
+        # find the Batch record of this event
+        k = rj["l"] - 1
+        while k > 0 and '"ev":"Batch"' not in lines[k]:
+            k -= 1
+        b = json.loads(lines[k])
+        binputs = [{"nodes": b.get("nodes", []), "root": rt} for rt in b.get("roots", [])]
+        chk.report({"why": rj["why"], "loc": rj.get("loc", ""), "cache": rj.get("cache", "")}, {"batch_inputs": binputs, "event": rj})
+    with open(trace) as f:
+        for line in f:
+            if '"ev":"Batch"' in line:
+                nb += 1
+                if nb % 700 == 1:
+                    b = json.loads(line)
+                    chk.sample({"batch": b["batch"], "roots": b["roots"], "nodes": [[n["op"], n["w"], n["a"]] for n in b["nodes"]]})
+    chk.cov["evaluations"] = st["records"]
+    chk.cov["distinct_nontrivial"] = nb
+    chk.cov["rule"] = ("batches of 4-5 expressions (ExprGen.tla shapes + one root built over the others; random roots built over each other) in one "
+                       "Context; each simplified by fresh instances, one sparse-cache instance in random order + re-simplification of results, one "
+                       "dense-cache instance in reverse order, the system-wide pass, fresh instances again; distinct = batches")
+    chk.assumptions += ["termination of the real code is observed by a 60 s watchdog, termination of the modelled driver is checked by TLC"]
     return chk.finish()
